@@ -12,9 +12,9 @@ with an error that is not a documented restriction)."""
 import json, collections
 from common import *
 import sqlcases, semcases
-from c03 import classify
+from c03 import classify, offset_limit_key
 
-DF_RESTRICTIONS = ["This feature is not implemented", "not supported", "Unsupported"]
+DF_RESTRICTIONS = ["This feature is not implemented", "not supported", "Unsupported", "unsupported:"]
 
 
 def finding_key(case, r, d, sql_side=False):
@@ -24,10 +24,38 @@ def finding_key(case, r, d, sql_side=False):
     if "Schema error: No field named" in err and ops.get("with_column_renamed") and \
             (ops.get("union_by_name") or ops.get("union_by_name_distinct")):
         return "union_by_name-over-renamed-qualified-columns-then-pushdown"
+    if not sql_side and offset_limit_key(r.get("df_plan")):
+        return offset_limit_key(r.get("df_plan"))
+    if "Ordering direction required for DISTINCT with limit" in err:
+        return "distinct-with-limit-over-window-ordering-internal-error"
+    if sql_side and _has_op(case["plan"], "pack") and _has_op(case["plan"], "scalarsub"):
+        return "push_down_leaf_projections-below-null-supplying-join-side"
+    if "Optimizer rule 'unions_to_filter' failed" in err and "No field named" in err:
+        return "unions_to_filter-filter-above-aliasing-projection"
+    if not sql_side and (r["df"][d] or {}).get("rows") is not None and _window_agg_ordered(case["plan"]):
+        return "window-builder-default-frame-rows-instead-of-range"
     # SQL side wrong, DataFrame side right: sum / count(DISTINCT) of a column-free argument (SQL projects it first)
     if sql_side and _literal_agg(case["plan"]):
         return "sql-aggregate-of-projected-literal-answered-from-statistics"
     return None
+
+
+def _has_op(x, op):
+    if isinstance(x, dict):
+        return x.get("op") == op or any(_has_op(v, op) for v in x.values())
+    if isinstance(x, list):
+        return any(_has_op(v, op) for v in x)
+    return False
+
+
+def _window_agg_ordered(x):
+    if isinstance(x, dict):
+        if x.get("op") == "window" and x["f"] in ("sum", "count", "min", "max", "countstar") and x["order"]:
+            return True
+        return any(_window_agg_ordered(v) for v in x.values())
+    if isinstance(x, list):
+        return any(_window_agg_ordered(v) for v in x)
+    return False
 
 
 def _cols(e):
@@ -82,7 +110,7 @@ def judge(ctx, case, r, st, samples, nontrivial, report=None):
         if bad:
             report(ctx, {"case": dict(case, layout=r.get("layout")), "db_index": d, "oracle": bad, "dataframe_plan": r["df_plan"],
                                    "dataframe": r["df"][d], "sql_engine": r["sql"][d], "reference": view["expect"]},
-                             key=finding_key(case, r, d, sql_side))
+                             key=finding_key(case, r, d, sql_side) or semcases.known_key(bad))
             return
     want_types = [{"i": "Int64", "s": "Utf8", "b": "Boolean"}[k] for k in case["schema"]]
     if r["df_types"] and r["df_types"] != want_types:
@@ -100,6 +128,8 @@ def selftest(ctx, cases, res, limit=25):
     for c in cases:
         r = res[c["id"]]
         if c["mode"] not in ("bag", "ordered") or c["expect"]["err"] or not (r["df"][0] or {}).get("rows"):
+            continue
+        if classify(r["sql"][0], semcases.views(c)[0])[0] != "ok" or classify(r["df"][0], semcases.views(c)[0])[0] != "ok":
             continue
         r2 = copy.deepcopy(r)
         r2["df"][0]["rows"] = r2["df"][0]["rows"][1:]
@@ -143,6 +173,14 @@ def run(ctx):
         for f in sqlcases.features_of(c["plan"]):
             feats[f] += 1
     st_res = selftest(ctx, cases, res) if not ctx.replay else None
+    if not ctx.replay:
+        need = ["filter", "select", "with_column", "with_column_renamed", "select_columns", "drop_columns", "join", "join_on", "aggregate",
+                "aggregate_grouping_sets", "window", "distinct", "distinct_on", "sort", "sort_by", "limit", "union", "union_distinct",
+                "union_by_name", "union_by_name_distinct", "intersect", "intersect_distinct", "except", "except_distinct",
+                "in_subquery", "exists", "scalar_subquery", "out_ref_col"]
+        missing = [k for k in need if ops[k] == 0]
+        if missing:
+            raise ToolError(f"C48: DataFrame calls never exercised in this run: {missing}")
     write_evidence(ctx, "exploration", {"selftest": st_res,
         "evaluations": summary["executions"], "distinct_nontrivial": max(len(nontrivial), 0),
         "rule": "case = <plan AST, database> from SemGen.tla (seeded TLC run) with the reference result of Rel.EvalPlan; the AST is rendered to a "
@@ -151,5 +189,5 @@ def run(ctx):
         "samples": samples, "cases": len(cases), "status_counts": dict(sorted(st.items())),
         "dataframe_api_calls": dict(sorted(ops.items())), "operator_coverage": dict(sorted(feats.items())),
     }, assumptions=["the two renderers (lib/sqlcases.py to SQL, harness/vsem/src/c48.rs to DataFrame calls) are trusted",
-                    "DataFrame methods not generated: distinct_on, unnest_columns, window, fill_null, alias",
+                    "DataFrame methods not generated: unnest_columns, fill_null, alias; LATERAL joins and quantified subquery comparisons have no DataFrame call (SQL side only, counted as df:error with an unsupported: message)",
                     "where the reference evaluation is an error the database is skipped; division-by-zero errors are not verdicts"])
